@@ -207,7 +207,7 @@ def main(argv=None):
             print('BROKEN-CHECK: replay of %s crashed\n%s' % (key, traceback.format_exc()))
             return 2
         if jsonable(o1) != jsonable(o2) or not o1.get('violation') or o1['violation'].get('key') != key:
-            print('BROKEN-CHECK: violation %s did not reproduce deterministically' % key)
+            print('BROKEN-CHECK: violation %s did not reproduce deterministically (first seen as: %s)' % (key, v['msg'][:500]))
             print(json.dumps(jsonable([o1, o2]))[:2000])
             return 2
         path = os.path.join(ROOT, 'replays', prop, digest([key, v['replay']]) + '.json')
